@@ -199,7 +199,7 @@ pub fn run(cfg: &Cfg) -> Report {
     report.absorb(ctx);
 
     // (B) random graphs up to 9 vertices / 16 edges
-    let nrand = cfg.tier.pick(1_000_000, 4_000_000);
+    let nrand = cfg.tier.pick(1_000_000, 16_000_000);
     let ctx = par_range(cfg, nrand, |ctx, k| {
         let mut rng = Rng::stream(seed, 0x19_0000_0000 + k as u64);
         let n = 4 + rng.below(6);
@@ -238,7 +238,7 @@ pub fn run(cfg: &Cfg) -> Report {
     report.absorb(ctx);
 
     // (C) grid / layered networks with larger cuts, judged by max-flow
-    let nbig = cfg.tier.pick(12_000, 60_000);
+    let nbig = cfg.tier.pick(12_000, 250_000);
     let ctx = par_range(cfg, nbig, |ctx, k| {
         let mut rng = Rng::stream(seed, 0x19_8000_0000 + k as u64);
         let layers = 2 + rng.below(4);
